@@ -23,6 +23,8 @@ RULE = (
     "independent occurrence finder. oracle: bool(implementation) == bool(reference), plain named bindings equal, "
     "reported occurrences equal. non-trivial = the reference says 'match' / at least one occurrence"
 )
+RULE += (" search space also with ALTERNATIVES: every ordered pair (and four triples) of the single-node patterns passed as a tuple; reference = "
+         "union of the occurrences of each alternative, each node reported once.")
 ASSUMPTIONS = [
     "reference semantics: every element absorbed by a named quantified wildcard is the same tree (pinned by the "
     "repository's tests); a name used with two quantifier kinds is outside the pattern language (must not compile)",
